@@ -23,6 +23,9 @@ var queueSizes = []int{2, 1, 3, 8, 64}
 func (e *Env) drawBuffered(cc ChanCfg) ChanCfg {
 	if e.P(5) == 4 {
 		cc.WBuf = []int{16, 1, 64, 1024, 4096}[e.P(5)]
+		if e.P(3) == 2 {
+			cc.RBuf = []int{16, 4096}[e.P(2)]
+		}
 	}
 	return cc
 }
